@@ -52,6 +52,9 @@ type Obligation struct {
 }
 
 type VC struct {
+	splitTail       ast.Stmt // `loop N split`: the switch ending the loop body, whose case ends are separate paths
+	splitTailTarget *target
+	siteHits map[string]int // site directives that matched a statement
 	prog *Prog
 	mode Mode
 	pkg  *packages.Package
